@@ -88,6 +88,7 @@ ALL_FORMS = FORMS + ("envplain", "envbrace", "envat", "envdq", "envdqmid", "envd
 FAMILY = {"envdqmid": "envdq", "envdq2": "envdq", "envgluesuf": "envglue", "envgluepre": "envglue", "gluepre": "glue", "gluesuf": "glue", "glueboth": "glue", "gluelist": "glue", "macroarg": "macro", "macrotail": "macro", "tsq": "triple", "tdq": "triple", "ffield": "f", "fval": "f"}
 # second members of a form family: in the quick tier only for length<=1 values and the probes
 QUICK_TINY_ONLY = ("tdq", "atgen", "glueboth", "macrotail")
+VERBATIM_FORMS = ("raw", "at", "atlist", "macro")
 POSITIONS = ("mid", "first", "last", "redir", "capt")
 # delivery paths.  direct: the command word IS the recorder (threaded callable alias, unthreaded
 # callable alias, real child found on $PATH).  aliased: the command word is a list alias / a string
@@ -690,8 +691,10 @@ def _plan_for(v, thorough):
             paths = PATHS
         elif tiny:
             paths = PATHS if len(v) <= 1 else ("t", "u", "c", "lu", "su")
+        elif expandable and (short or form in VERBATIM_FORMS):
+            paths = ("u", "lu")  # (length 3: only the forms that promise the text untouched)
         else:
-            paths = ("u", "lu") if expandable else ("u",)
+            paths = ("u",)
         plan.append((form, "mid", True, paths))
         # $EXPAND_ENV_VARS = False: expansion forms must stop expanding `$`, nothing else may change
         if form not in MACRO_FORMS:
@@ -854,7 +857,7 @@ def run(ctx):
     by_path = {p: sum(r["by_path"][p] for r in res) for p in PATHS}
     by_kind = {k: sum(r["by_kind"][k] for r in res) for k in ("mid", "E0", "pos", "env")}
     if ctx.thorough:
-        plan_txt = "length<=2 and probes: middle position on all six delivery paths, $EXPAND_ENV_VARS=False and the 4 other positions on the unthreaded alias (length<=1 and the probes: on the three direct paths, $EXPAND_ENV_VARS=False also through the list alias); length 3: middle position on the unthreaded alias, plus through the list alias and with $EXPAND_ENV_VARS=False when the value contains $ or ~"
+        plan_txt = "length<=2 and probes: middle position on all six delivery paths, $EXPAND_ENV_VARS=False and the 4 other positions on the unthreaded alias (length<=1 and the probes: on the three direct paths, $EXPAND_ENV_VARS=False also through the list alias); length 3: middle position on the unthreaded alias, plus with $EXPAND_ENV_VARS=False and (forms raw, at, atlist, macro) through the list alias when the value contains $ or ~"
     else:
         plan_txt = f"middle position on the unthreaded alias for every value; length<=1 and the probes on all six delivery paths (probes longer than 1: five, without list-alias->child), with $EXPAND_ENV_VARS=False (also through the list alias when the value contains $ or ~), and in the 4 other positions (redirect/capture positions on the three direct paths for length<=1); length-2 values containing $ or ~ also through the list alias and with $EXPAND_ENV_VARS=False; the forms {list(QUICK_TINY_ONLY)} only for length<=1 and the probes' closure"
     plan_txt += f"; part B: variable Q set to every non-empty sequence of <= {maxlen} of the tokens {list(VTOKENS)} ($W='{ENV_W}', files matching the globs present) and used as {[a for a, _, _ in ENV_FORMS.values()]} (%s = the same text written literally, expected verbatim) on the unthreaded alias directly and through the list alias (single tokens: all six paths), expected = the value substituted verbatim exactly once, 3 s alarm per execution"
